@@ -221,8 +221,10 @@ class _Wrapped(object):
             self.func, self.__wrapped__,
             *self.decorator.f_args, **self.decorator.f_kwargs)
 
-    def __call__(self, *args, **kwargs):
-        return self.func(*args, **kwargs)
+    def __call__(_sigtools__self, *args, **kwargs):
+        # not named self: the wrapped function may have a parameter of that
+        # name, which callers are entitled to pass by keyword
+        return _sigtools__self.func(*args, **kwargs)
 
     def __get__(self, instance, owner):
         return type(self)(
